@@ -165,7 +165,13 @@ func RunRace(sc *ConcScenario) *ConcResult {
 		defer bridge.SetMinCapacity(96)
 	}
 	payloadMode = true
-	sim := simrt.New(simrt.Config{Seed: sc.SchedSeed, Strategy: sc.Strategy, Epoch: sc.Epoch, StepBudget: 400000, Replay: sc.Replay})
+	budget := uint64(400000)
+	for _, op := range sc.Setup {
+		if op.K == XBulkInsert && op.N > 10000 {
+			budget = 12000000 // the big-table scenario: tens of thousands of inserts and a dozen table copies
+		}
+	}
+	sim := simrt.New(simrt.Config{Seed: sc.SchedSeed, Strategy: sc.Strategy, Epoch: sc.Epoch, StepBudget: budget, Replay: sc.Replay})
 	defer sim.Close()
 	cacheFam := sc.Family == "cache"
 	var m, m2 MapAPI
